@@ -50,7 +50,15 @@ def main():
         tier = args[args.index("--tier") + 1]
     names = [a for a in args if not a.startswith("--") and a not in ("quick", "thorough") and not a.endswith(".json")]
     sdir = os.path.join(ROOT, "seeded")
+    names = [x for x in names if "/" not in x]
     names = names or sorted(d for d in os.listdir(sdir) if os.path.isdir(os.path.join(sdir, d)))
+    shard = None
+    if "--shard" in args:
+        # --shard i/n: every n-th seeded change, in one scratch worktree that is kept (with its build cache) for the whole shard
+        i, n = map(int, args[args.index("--shard") + 1].split("/"))
+        names = [x for x in names if "/" not in x][i::n]
+        shard = f"/tmp/seedrun_s{i}"
+        scratch = True
     if sh(["git", "-C", REPO, "status", "--porcelain", "--untracked-files=no"]).stdout.strip():
         print("refusing: /repo has uncommitted changes")
         return 2
@@ -69,12 +77,15 @@ def main():
         checks = ALL if all_checks else [target]
         repo = REPO
         if scratch:
-            repo = f"/tmp/seedrun_{os.getpid()}"
-            sh(["git", "-C", REPO, "worktree", "add", "--detach", repo, "HEAD", "-f"])
-            sh(["cp", os.path.join(REPO, "Cargo.lock"), repo])
+            repo = shard or f"/tmp/seedrun_{os.getpid()}"
+            if not (shard and os.path.isdir(repo)):
+                sh(["git", "-C", REPO, "worktree", "add", "--detach", repo, "HEAD", "-f"])
+                sh(["cp", os.path.join(REPO, "Cargo.lock"), repo])
+            else:
+                sh(["git", "-C", repo, "checkout", "--", "."])
         r = sh(["git", "-C", repo, "apply", os.path.join(d, "patch.diff")])
         if r.returncode != 0:
-            if scratch:
+            if scratch and not shard:
                 sh(["git", "-C", REPO, "worktree", "remove", "--force", repo])
             print(n, "patch does not apply:", r.stderr[:200])
             results.setdefault(n, {})["error"] = "patch does not apply"
@@ -92,7 +103,9 @@ def main():
                             "signatures": sigs[:5]}
                 print(f"{n}: {c} exit={p.returncode} violations={fired[c]['violations']} {sigs[:2]}", flush=True)
         finally:
-            if scratch:
+            if scratch and shard:
+                sh(["git", "-C", repo, "checkout", "--", "."])
+            elif scratch:
                 import hashlib
                 tag = hashlib.sha1(repo.encode()).hexdigest()[:8]
                 sh(["git", "-C", REPO, "worktree", "remove", "--force", repo])
@@ -106,6 +119,11 @@ def main():
         e["caught_by"] = sorted({k.split(":")[0] for k, v in e["runs"].items() if v["exit"] == 1})
         e["caught_by_target"] = target in e["caught_by"]
         json.dump(results, open(res_path, "w"), indent=1)
+    if shard:
+        import hashlib
+        tag = hashlib.sha1(shard.encode()).hexdigest()[:8]
+        sh(["git", "-C", REPO, "worktree", "remove", "--force", shard])
+        subprocess.run(f"rm -rf {ROOT}/.cache/*-{tag}* {ROOT}/.cache/*{tag}.so", shell=True)
     if not scratch:
         # rebuild against the clean tree so that caches are warm and nothing from a mutant lingers
         sh([os.path.join(ROOT, "setup.sh")], cwd=ROOT)
